@@ -3,14 +3,19 @@ import BasicModel.Thm.C06
   The variable pool (C18, part 3): "setting variables back to 0 or the empty string frees their slots".
 
   * `convTo t x` — the value `Var.store` actually writes: `x` CONVERTED to the type `t` of the name;
-    `store_eq_conv`: with room in the pool, `store` is "convert, then `updateVal`";
+    `store_eq_conv`: with room in the pool, or for a name the pool holds, `store` is "convert, then
+    `updateVal`";
   * `NoDefaults v` — no stored entry holds a default value (`0`, `±0.0`, `""`); it is an invariant of
     every operation of the store (`noDefaults_*`), needs no other invariant, and holds for `Var.new`;
   * `store_frees_iff` — the test is made on the CONVERTED value: after a successful `store` the slot
     is gone iff the converted value is a default, and then the pool has shrunk (or stayed);
     `fetch_default_iff_absent` — under `NoDefaults` a variable reads as a default iff it has no slot;
-  * `store_oom_iff` — the exact condition of OUT OF MEMORY: more than 65 535 entries, whatever the
-    name and the value (the pool test comes first).
+  * `store_oom_iff` — the exact condition of OUT OF MEMORY: more than 65 535 entries AND a name the
+    pool does not hold yet (the pool test comes first, but it refuses new names only: finding D23,
+    repaired by dfafc65 — before, a full pool refused every store, also `A = 0`);
+    `full_pool_refuses_new_names`; `store_default_frees_any_pool`, `store_overwrite_any_pool` — on
+    ANY pool, a full one included, a variable that holds a value can be set back to a default value
+    (the slot is freed, the pool shrinks by one) or overwritten (the pool keeps its size).
 
   Chain-neutral (imports neither runtime lemma chain).
 -/
@@ -50,16 +55,25 @@ theorem insertTy_eq_conv (v : Var) (t : VarTy) (n : Str) (x : Val) :
     | exact (map_bind_ok _ _ _).symm
     | (split <;> rfl)
 
-/-- with room in the pool and a name that has a type, `store` converts and then updates -/
-theorem store_eq_conv (v : Var) (n : Str) (x : Val) (t : VarTy) (hlen : v.vars.length ≤ 65535)
+theorem pool_test_passes {v : Var} {n : Str} (hlen : v.vars.length ≤ 65535 ∨ AL.contains n v.vars = true) :
+    ¬ (v.vars.length > 65535 ∧ ¬ AL.contains n v.vars = true) := by
+  rcases hlen with h | h
+  · intro ⟨h1, _⟩; omega
+  · intro ⟨_, h2⟩; exact h2 h
+
+/-- with room in the pool, or for a name the pool already holds, and a name that has a type, `store`
+    converts and then updates -/
+theorem store_eq_conv (v : Var) (n : Str) (x : Val) (t : VarTy)
+    (hlen : v.vars.length ≤ 65535 ∨ AL.contains n v.vars = true)
     (ht : v.tyOf n = .ok (some t)) : v.store n x = (convTo t x).map (v.updateVal n) := by
   unfold store
-  rw [if_neg (by omega), ht]
+  rw [if_neg (pool_test_passes hlen), ht]
   exact insertTy_eq_conv v t n x
 
 /-- a successful `store`, read through `convTo` -/
 theorem store_ok_conv {v v' : Var} {n : Str} {x : Val} (h : v.store n x = .ok v') :
-    v.vars.length ≤ 65535 ∧ ∃ t y, v.tyOf n = .ok (some t) ∧ convTo t x = .ok y ∧ v' = v.updateVal n y := by
+    (v.vars.length ≤ 65535 ∨ AL.contains n v.vars = true) ∧
+      ∃ t y, v.tyOf n = .ok (some t) ∧ convTo t x = .ok y ∧ v' = v.updateVal n y := by
   obtain ⟨hlen, t, _, ht, _, _⟩ := store_ok h
   refine ⟨hlen, t, ?_⟩
   rw [store_eq_conv v n x t hlen ht] at h
@@ -393,48 +407,97 @@ theorem convTo_error_code {t : VarTy} {x : Val} {e : Error} (h : convTo t x = .e
       · cases h
     all_goals (cases h; exact .inr (.inl rfl))
 
-/-- **the exact condition of OUT OF MEMORY in `store`**: the pool holds more than 65 535 entries —
-    whatever the name (new or not) and the value (a default or not): the pool test comes first -/
+/-- `tyOf` never fails -/
+theorem tyOf_ne_error (v : Var) (n : Str) (e : Error) : v.tyOf n ≠ .error e := by
+  intro ht
+  unfold tyOf at ht
+  split at ht
+  · cases ht
+  · split at ht
+    · cases ht
+    · split at ht <;> cases ht
+
+/-- **the exact condition of OUT OF MEMORY in `store`** (after the repair of D23): the pool holds more
+    than 65 535 entries AND the name is not in the pool yet — whatever the value.  A name the pool
+    holds is never refused for lack of room. -/
 theorem store_oom_iff (v : Var) (n : Str) (x : Val) :
-    (∃ e, v.store n x = .error e ∧ e.code = Code.outOfMemory) ↔ v.vars.length > 65535 := by
+    (∃ e, v.store n x = .error e ∧ e.code = Code.outOfMemory) ↔
+      (v.vars.length > 65535 ∧ AL.contains n v.vars = false) := by
   constructor
   · rintro ⟨e, he, hc⟩
-    refine Classical.byContradiction fun hlen => ?_
-    have hlen' : v.vars.length ≤ 65535 := by omega
-    unfold store at he
-    rw [if_neg hlen] at he
-    cases ht : v.tyOf n with
-    | error e' =>
-      -- `tyOf` never fails
-      unfold tyOf at ht
-      split at ht
-      · cases ht
-      · split at ht
-        · cases ht
-        · split at ht <;> cases ht
-    | ok ot =>
-      rw [ht] at he
-      cases ot with
-      | none =>
-        cases he
-        cases hc
-      | some t =>
-        have he' : v.insertTy t n x = .error e := he
-        rw [insertTy_eq_conv] at he'
-        cases hcv : convTo t x with
-        | ok y => rw [hcv] at he'; cases he'
-        | error e' =>
-          rw [hcv] at he'
-          cases he'
-          rcases convTo_error_code hcv with h | h | h <;> (rw [h] at hc; cases hc)
-  · intro hlen
-    exact ⟨Error.mk' Code.outOfMemory, store_full v n x hlen, rfl⟩
+    by_cases hcond : v.vars.length > 65535 ∧ ¬ AL.contains n v.vars = true
+    · exact ⟨hcond.1, by simpa using hcond.2⟩
+    · exfalso
+      unfold store at he
+      rw [if_neg hcond] at he
+      cases ht : v.tyOf n with
+      | error e' => exact tyOf_ne_error v n e' ht
+      | ok ot =>
+        rw [ht] at he
+        cases ot with
+        | none =>
+          cases he
+          cases hc
+        | some t =>
+          have he' : v.insertTy t n x = .error e := he
+          rw [insertTy_eq_conv] at he'
+          cases hcv : convTo t x with
+          | ok y => rw [hcv] at he'; cases he'
+          | error e' =>
+            rw [hcv] at he'
+            cases he'
+            rcases convTo_error_code hcv with h | h | h <;> (rw [h] at hc; cases hc)
+  · rintro ⟨hlen, hn⟩
+    exact ⟨Error.mk' Code.outOfMemory, store_full v n x hlen hn, rfl⟩
 
-/-- a store that succeeds leaves at most 65 536 entries, and a pool of 65 536 is final for `store`:
-    every further assignment — also of `0` to a variable that holds a value — is OUT OF MEMORY -/
-theorem store_full_refuses_zero (v : Var) (h : v.vars.length = 65536) (n : Str) (x : Val) :
-    v.store n x = err Code.outOfMemory :=
-  store_full v n x (by omega)
+/-- a full pool (65 536 entries, or more) refuses exactly the NEW names: every store to a name it does
+    not hold is OUT OF MEMORY, whatever the value -/
+theorem full_pool_refuses_new_names (v : Var) (h : v.vars.length > 65535) (n : Str) (x : Val)
+    (hn : AL.contains n v.vars = false) : v.store n x = err Code.outOfMemory :=
+  store_full v n x h hn
+
+theorem get_of_contains {l : List (Str × Val)} {n : Str} (hc : AL.contains n l = true) :
+    ∃ old, AL.get n l = some old := AL.contains_iff.1 hc
+
+/-- **"setting variables back to 0 or the empty string frees their slots" — on ANY pool**, a full
+    one included (D23 repaired): a variable that holds a value, assigned a value whose conversion `y` to
+    the variable's type is a default (`0`, `±0.0`, `""`): the store SUCCEEDS, the key is removed, and
+    the pool is at least one entry smaller — exactly one with distinct keys.  No hypothesis on the size
+    of the pool. -/
+theorem store_default_frees_any_pool (v : Var) (n : Str) (x y : Val) (t : VarTy)
+    (hc : AL.contains n v.vars = true) (ht : v.tyOf n = .ok (some t)) (hy : convTo t x = .ok y)
+    (hd : isDefault y = true) :
+    ∃ v', v.store n x = .ok v' ∧ v'.vars = AL.erase n v.vars ∧ AL.get n v'.vars = none ∧
+      v'.vars.length + 1 ≤ v.vars.length ∧ (AL.NoDup v.vars → v'.vars.length + 1 = v.vars.length) := by
+  have hs : v.store n x = .ok (v.updateVal n y) := by
+    rw [store_eq_conv v n x t (.inr hc) ht, hy]; rfl
+  have hv : (v.updateVal n y).vars = AL.erase n v.vars := by unfold updateVal; rw [if_pos hd]
+  refine ⟨_, hs, hv, ?_, ?_, ?_⟩
+  · rw [hv]; exact AL.get_erase_self n v.vars
+  · rw [hv]; exact AL.length_erase_lt_of_contains hc
+  · intro hnd
+    obtain ⟨old, hold⟩ := get_of_contains hc
+    rw [hv]; exact length_erase_of_get hnd hold
+
+/-- **overwriting a variable that holds a value works on ANY pool**, a full one included: the store
+    succeeds, the variable holds the converted value, the pool has not grown — with distinct keys it
+    has exactly the size it had -/
+theorem store_overwrite_any_pool (v : Var) (n : Str) (x y : Val) (t : VarTy)
+    (hc : AL.contains n v.vars = true) (ht : v.tyOf n = .ok (some t)) (hy : convTo t x = .ok y)
+    (hd : isDefault y = false) :
+    ∃ v', v.store n x = .ok v' ∧ v'.vars = AL.set n y v.vars ∧ AL.get n v'.vars = some y ∧
+      v'.vars.length ≤ v.vars.length ∧ (AL.NoDup v.vars → v'.vars.length = v.vars.length) := by
+  have hs : v.store n x = .ok (v.updateVal n y) := by
+    rw [store_eq_conv v n x t (.inr hc) ht, hy]; rfl
+  have hv : (v.updateVal n y).vars = AL.set n y v.vars := by
+    unfold updateVal; rw [if_neg (by rw [hd]; exact Bool.false_ne_true)]
+  refine ⟨_, hs, hv, ?_, ?_, ?_⟩
+  · rw [hv]; exact AL.get_set_self n y v.vars
+  · rw [hv]; exact AL.length_set_le_of_contains y hc
+  · intro hnd
+    obtain ⟨old, hold⟩ := get_of_contains hc
+    rw [hv, AL.set_eq, List.length_cons]
+    exact length_erase_of_get hnd hold
 
 /-! ### non-vacuity (Integer variables) -/
 
@@ -448,6 +511,35 @@ example : ((Var.new.store "A%".toList (.sng 0xBECCCCCD)).toOption.map (·.vars))
     some [("A%".toList, .int (-1))] := by decide
 example : ((Var.new.store "A$".toList (.str ['x'])).toOption.bind
     (fun v => (v.store "A$".toList (.str [])).toOption.map (·.vars))) = some [] := by decide
+/-- a pool of 65 536 entries whose first is `A% = 5`: `A% = 0` succeeds and leaves 65 535 entries,
+    `A% = 7` succeeds and keeps 65 536, a new name is OUT OF MEMORY -/
+def fullPool : Var := { vars := ("A%".toList, .int 5) :: List.replicate 65535 ("B%".toList, Val.int 1) }
+
+theorem fullPool_length : fullPool.vars.length = 65536 := by
+  show (List.replicate 65535 _).length + 1 = _
+  rw [List.length_replicate]
+
+theorem fullPool_contains : AL.contains "A%".toList fullPool.vars = true := rfl
+
+example : ∃ v', fullPool.store "A%".toList (.int 0) = .ok v' ∧ AL.get "A%".toList v'.vars = none ∧
+    v'.vars.length + 1 ≤ 65536 := by
+  obtain ⟨v', h1, _, h3, h4, _⟩ := store_default_frees_any_pool fullPool "A%".toList (.int 0) (.int 0) .integer
+    fullPool_contains rfl rfl rfl
+  exact ⟨v', h1, h3, by rw [← fullPool_length]; exact h4⟩
+example : ∃ v', fullPool.store "A%".toList (.int 7) = .ok v' ∧ AL.get "A%".toList v'.vars = some (.int 7) ∧
+    v'.vars.length ≤ 65536 := by
+  obtain ⟨v', h1, _, h3, h4, _⟩ := store_overwrite_any_pool fullPool "A%".toList (.int 7) (.int 7) .integer
+    fullPool_contains rfl rfl rfl
+  exact ⟨v', h1, h3, by rw [← fullPool_length]; exact h4⟩
+example : fullPool.store "C%".toList (.int 1) = err Code.outOfMemory :=
+  full_pool_refuses_new_names fullPool (by rw [fullPool_length]; decide) _ _ (by
+    show (AL.get "C%".toList fullPool.vars).isSome = false
+    have : AL.get "C%".toList fullPool.vars = none := by
+      rw [AL.get_none_iff]
+      intro p hp
+      simp only [fullPool, List.mem_cons, List.mem_replicate] at hp
+      rcases hp with rfl | ⟨_, rfl⟩ <;> decide
+    rw [this]; rfl)
 example : NoDefaults { vars := [("A%".toList, .int 5)] } := by
   intro p hp
   simp only [List.mem_singleton] at hp
